@@ -3,7 +3,7 @@ use crate::internal::scheduler::TaskBatch;
 use crate::internal::server::core::{Core, CoreSplit};
 use crate::internal::server::worker::Worker;
 use crate::internal::solver::{ConstraintType, LpSolution, LpSolver, Variable};
-use crate::resources::{CPU_RESOURCE_ID, ResourceRqId};
+use crate::resources::{CPU_RESOURCE_ID, ResourceAmount, ResourceRqId};
 use crate::{Map, ResourceVariantId, Set, WorkerId};
 use thin_vec::ThinVec;
 
@@ -181,6 +181,19 @@ pub(crate) fn run_scheduling_solver(
                 .free_resources
                 .get(ResourceId::new(r as u32));
             if free.is_max() {
+                // Unknown capacity: only requests for all of the resource exhaust it,
+                // and at most one of them fits
+                let max = ResourceAmount::MAX.as_f64();
+                if c.iter().any(|(_, amount)| *amount >= max) {
+                    solver.set_name(|| format!("w{} unknown resource limit", worker.id));
+                    solver.add_constraint(
+                        ConstraintType::Max,
+                        1.0,
+                        c.iter()
+                            .filter(|(_, amount)| *amount >= max)
+                            .map(|(v, _)| (*v, 1.0)),
+                    );
+                }
                 c.clear();
                 continue;
             }
@@ -582,11 +595,16 @@ fn create_sn_var(
             if global < 0.000001 {
                 return 0.0;
             }
-            e.request
+            let amount = e
+                .request
                 .amount_or_none_if_all()
-                .unwrap_or_else(|| worker.resources.get(r))
-                .as_f64()
-                / global
+                .unwrap_or_else(|| worker.resources.get(r));
+            // An unknown capacity counts as one unit (as in `resource_sums`)
+            if amount.is_max() {
+                1.0 / global
+            } else {
+                amount.as_f64() / global
+            }
         })
         .sum::<f64>()
         * (n_workers - w_idx) as f64
